@@ -165,6 +165,23 @@ def run(tier):
         if not r.get("accepted2") or r.get("anyq"):
             return None
         return r if bump(r["d2"]) else None
+    # lists of blocks at the root: two or three generated documents in one text, optionally with a root-level
+    # key-value block (METADATA / VALIDATION / CONNECTIONOPTIONS) in front of, between or behind them
+    kvs = ['METADATA\n  "wms_title" "a b"\n  "k" "v"\nEND\n', "VALIDATION\n  'qstring' '^[a-z]+$'\nEND\n", 'CONNECTIONOPTIONS\n  "FLATTEN" "YES"\nEND\n']
+    for j in range(0, min(len(hs) - 3, 120 if quick else 1500), 3):
+        parts = []
+        for h in hs[j:j + (2 if j % 2 else 3)]:
+            conc = concretise.Concretiser(seed * 1000 + 7 + j)
+            t, _ = concretise.assemble(conc.tokens(concretise.with_root(h, docs.root_type(h))))
+            parts.append(t)
+        if j % 4 == 0:
+            parts.insert(j % (len(parts) + 1), kvs[j % 3])
+        text = "\n".join(parts)
+        try:
+            d1 = loads(text)
+        except Exception:  # noqa: BLE001
+            continue
+        add("rootlist:%d" % j, d1, "rootlist", text)
     verdicts = tracecheck.validate("TraceRoundTrip", records, "c01", ck=ck, chunk=800, canary=canary)
     skipped = 0
     for tid, v in verdicts.items():
